@@ -28,8 +28,10 @@ LEVEL_TEXT = (
     'behaviours, with the caller struck at every activation boundary in the thorough tier.')
 TECHNIQUE = 'runtime monitoring: sort-by-completion model over the event log + containment of the losers, signal injection at activation boundaries'
 ASSUMPTIONS = [
-    'failing activities are used with collect(), and with first() only when the consumer never '
-    'suspends in its own loop body (otherwise it is the known finding D15 of C03)',
+    'first() with failing activities and a consumer that suspends in its own loop body or '
+    'leaves early is judged by a weaker rule: results are a prefix of the completion order at '
+    'the right times, the outcome is the results or Concurrent of logged failures, and nothing '
+    'of the activities runs after the consumer left',
 ]
 REQUIRED_STATS = ['collects_judged', 'firsts_judged', 'items_checked', 'losers_checked',
                   'signals_landed']
@@ -61,8 +63,13 @@ def make_case(seed, index, tier):
         spec['aclose'] = rng.random() < 0.5
         if spec['work'] == 0 and spec['brk'] is None and rng.random() < 0.5:
             # a consumer that never suspends in its own loop body is always inside first()
-            # when a failure strikes: the failure must surface as Concurrent (with a suspending
-            # body it is the known finding D15)
+            # when a failure strikes: the failure must surface as Concurrent at once
+            for act in acts:
+                if rng.random() < 0.3:
+                    act['fail'] = True
+        elif rng.random() < 0.3:
+            # a failure may strike while the consumer is busy in its own loop body (D15)
+            spec['lazy_failure'] = True
             for act in acts:
                 if rng.random() < 0.3:
                     act['fail'] = True
@@ -238,6 +245,8 @@ def check(sess, arena, checker, outcome, plan):
                 if result[0] != 'ValueError':
                     checker.violation('first-no-valueerror', 'count %d > %d activities but no '
                                       'ValueError (%r)' % (count, n, result[:2]))
+            elif any(act['fail'] for act in acts) and spec.get('lazy_failure'):
+                judge_lazy_failing_first(checker, sess, spec, result, order, t0, count, struck)
             elif any(act['fail'] for act in acts):
                 judge_failing_first(checker, sess, spec, result, order, t0, count)
             elif result[0] != 'items':
@@ -288,6 +297,60 @@ def check(sess, arena, checker, outcome, plan):
                                               position, value, when, completed, asked))
     found += [dict(v) for v in sess.violations if v['mechanism'].startswith('c16:')]
     return found
+
+
+def judge_lazy_failing_first(checker, sess, spec, result, order, t0, count, struck):
+    """first() with failing activities and a consumer that is busy outside the generator"""
+    acts = spec['acts']
+    checker.stats['lazy_first_failures'] = checker.stats.get('lazy_first_failures', 0) + 1
+    if result[0] not in ('items', 'first-concurrent'):
+        checker.violation('first-unexpected-valueerror', 'ValueError for count %r of %d'
+                          % (spec['count'], len(acts)))
+        return
+    items = result[1]
+    limit = count if spec['brk'] is None else min(count, spec['brk'])
+    if len(items) > limit:
+        checker.violation('first-wrong-number', 'first(count=%r) yielded %d values, at most %d '
+                          'expected' % (spec['count'], len(items), limit))
+    asks = [ev[0] for ev in sess.events if ev[1] == 'consumer' and ev[2] == 'ask']
+    good = [(acts[number]['value'], when) for number, when, failed in order if not failed]
+    failures = [(number, when) for number, when, failed in order if failed]
+    for position, (value, when) in enumerate(items):
+        checker.stats['items_checked'] += 1
+        if position >= len(good):
+            checker.violation('first-invented', 'value %r was yielded but only %d activities '
+                              'completed' % (value, len(good)))
+            break
+        want_value, completed = good[position]
+        if value != want_value:
+            checker.violation('first-wrong-order', 'item %d is %r, the %d. activity to complete '
+                              'returned %r' % (position, value, position + 1, want_value))
+        asked = asks[position] if position < len(asks) else completed
+        if when != max(completed, asked):
+            checker.violation('first-wrong-time', 'item %d (%r) yielded at %r, completed at %r, '
+                              'asked for at %r' % (position, value, when, completed, asked))
+        if any(failed_at < when for _, failed_at in failures):
+            checker.violation('first-result-after-failure', 'item %d (%r) was yielded at %r '
+                              'although an activity had failed at %r' % (
+                                  position, value, when, min(w for _, w in failures)))
+    if result[0] == 'first-concurrent':
+        logged = ['act%d' % number for number, _ in failures]
+        if not result[3] or any(name not in logged for name in result[3]):
+            checker.violation('first-wrong-failures', 'Concurrent of %s, logged failures %s' % (
+                result[3], logged))
+        elif failures:
+            # reported when the consumer is inside first(): at the failure or the next ask
+            first_fail = min(when for _, when in failures)
+            later_asks = [ask for ask in asks[len(items):] if ask >= first_fail]
+            allowed = {first_fail} | set(asks[len(items):len(items) + 1]) | set(later_asks[:1])
+            if result[2] not in allowed and not struck:
+                checker.violation('first-failure-time', 'first() failed at %r; the activity '
+                                  'failed at %r, the consumer asked at %s' % (
+                                      result[2], first_fail, asks))
+    elif failures and not struck and len(items) < limit:
+        checker.violation('first-failure-not-raised', 'activities failed at %s but first() ended '
+                          'normally with %d of %d results' % (
+                              [w for _, w in failures], len(items), limit))
 
 
 def judge_failing_first(checker, sess, spec, result, order, t0, count):
